@@ -11,11 +11,14 @@ thread_local! {
 pub fn install() {
     let verbose = std::env::var_os("VERIF_VERBOSE").is_some();
     std::panic::set_hook(Box::new(move |info| {
-        if info
+        if let Some(b) = info
             .payload()
             .downcast_ref::<crate::wire::reader::BudgetExceeded>()
-            .is_some()
         {
+            if verbose {
+                eprintln!("[budget] {}", b.0);
+            }
+            let _ = LOG.try_with(|l| l.borrow_mut().push(format!("BUDGET: {}", b.0)));
             return;
         }
         let msg = if let Some(s) = info.payload().downcast_ref::<&str>() {
